@@ -62,10 +62,12 @@ def slice_bits(an, st, v, frame, assign=None, joins=None):
     return out
 
 
-def transactions(prog, body, setup=None, max_depth=6, subst=None):
+def transactions(prog, body, setup=None, max_depth=6, subst=None, shifts=None):
     """[(kind, [byte bit lists], [payload byte bit lists] | None)] — one entry per distinct transaction shape"""
     an = absint_interp.new_analyzer(prog, max_depth=max_depth)
     rec = {}
+    if shifts is not None:
+        an.lossy_shifts = shifts
 
     def hook(an_, t, args, frame, st, nm):
         kind = nm.split('::')[-1]
